@@ -71,7 +71,7 @@ pub fn value_canon(v: &Value) -> String {
         Value::Boolean(b) => format!("(b {})", *b as u8),
         Value::String(s) => format!("(s {})", hex(s)),
         Value::DateTime(dt) => format!("(d {})", hex(&dt.to_string())),
-        Value::FunctionReference(FunctionReference::Normal(n)) => format!("(f N {n})"),
+        Value::FunctionReference(FunctionReference::Normal(n, _)) => format!("(f N {n})"),
         Value::FunctionReference(FunctionReference::Foreign(n)) => format!("(f F {n})"),
         Value::FunctionReference(FunctionReference::TzConversion(n)) => {
             format!("(f T {})", hex(n))
@@ -115,7 +115,7 @@ pub fn constant_canon(c: &Constant) -> String {
         Constant::Unit(u) => format!("(u {})", hex(&u.to_string())),
         Constant::Boolean(b) => format!("(b {})", *b as u8),
         Constant::String(s) => format!("(s {})", hex(s)),
-        Constant::FunctionReference(FunctionReference::Normal(n)) => format!("(f N {n})"),
+        Constant::FunctionReference(FunctionReference::Normal(n, _)) => format!("(f N {n})"),
         Constant::FunctionReference(FunctionReference::Foreign(n)) => format!("(f F {n})"),
         Constant::FunctionReference(FunctionReference::TzConversion(n)) => {
             format!("(f T {})", hex(n))
